@@ -902,6 +902,7 @@ func main() {
 	tableOut := flag.String("table", "", "output Lean file: translated binary searches")
 	filterOut := flag.String("filter", "", "output Lean file: translated bloom filter")
 	walOut := flag.String("wal", "", "output Lean file: translated WAL.Write")
+	kwayOut := flag.String("kway", "", "output Lean file: translated kway.merge")
 	flag.Parse()
 	if *locktable != "" {
 		genLockTable(*repo, *locktable)
@@ -935,6 +936,9 @@ func main() {
 	}
 	if *walOut != "" {
 		genWal(*repo, *walOut)
+	}
+	if *kwayOut != "" {
+		genKway(*repo, *kwayOut)
 	}
 	if *skeleton != "" {
 		genSkeleton(*repo, *skeleton)
